@@ -38,6 +38,9 @@ THEOREMS = [
     "Pyribs.C16.terminated_keeps",
     "Pyribs.C16.all_resets",
     "Pyribs.C16.protocol",
+    "Pyribs.C16.rejected_unchanged",
+    "Pyribs.C16.consistent_run",
+    "Pyribs.C16.tellSpecFrom_partition",
     "Pyribs.C16.nonvacuous",
 ]
 RULE = ("histories of ask / tell (plus about 10 % out-of-order and ask_dqd / tell_dqd calls) on a BanditScheduler with "
